@@ -328,4 +328,10 @@ def obligations(tier):
                           functions=["oscore.CanUnprotect.unprotect (Echo recovery)", "ReplayWindow.initialize_from_freshlyseen"],
                           symbolic={"arrivals": "3 (quick) / 4 indices over 6 requests (no / wrong / right Echo)", "echo_recovery configured": "bool"},
                           stubs=["ideal AEAD/HKDF", "cbor stub"]))
+    from vf.props import c13
+    for n1, first in ((2, 0), (2, 3)):
+        obs.append(Obligation("state-lost-after-crash-n%d-first%d" % (n1, first), c13.mk_replay(n1, False, first), 250 if q else 1200,
+                              functions=["oscore.FilesystemSecurityContext._replay_window_changed/_store/_load", "oscore.CanUnprotect.unprotect"],
+                              symbolic={"requests before the crash": "%d by index" % n1, "crash position": "0..10", "request after reload": "index/4"},
+                              stubs=["FakeFS", "ideal AEAD/HKDF"], note="same harness as C13 replay-state obligations"))
     return obs
